@@ -70,7 +70,8 @@ Definition covered : list string := [
   "set_port_state"; "get_port_state"; "set_signaling_class"; "get_signaling_class"; "send_channel_power";
   "get_power_channel_status"; "get_pm_global_status"; "send_pm_heartbeat";
   "get_device_guid"; "get_channel_authentication_capabilities"; "query_rollback_status"; "initiate_manual_rollback";
-  "get_dcmi_capabilities"; "get_power_reading"; "i2c_write_read"; "i2c_read"; "i2c_write"
+  "get_dcmi_capabilities"; "get_power_reading"; "i2c_write_read"; "i2c_read"; "i2c_write";
+  "get_component_property"
 ]%string.
 
 Definition is_supported (name : string) : bool :=
